@@ -72,6 +72,9 @@ func (r *NlsrReadvertiser) Withdraw(name enc.Name, route *table.Route) {
 		core.LogDebug(r, "skip withdraw=", name, " still advertised")
 		return
 	}
+	// The last route of the prefix is gone: forget the prefix, otherwise the map keeps
+	// a record with count 0 for every prefix that was ever registered
+	delete(r.advertised, nhash)
 	core.LogInfo(r, "withdraw=", name)
 
 	params := &ndn_mgmt.ControlArgs{
